@@ -35,6 +35,16 @@ Theorem C04_fixed_on_witness :
   /\ honest_legacy cfg_fixed z_case = true /\ flow_legacy cfg_fixed pcfg_fixed z_case = Some Accept.
 Proof. exact c04_fixed_on_witness. Qed.
 
+(* the behaviour before fix commit f302f8d (W3C credential search stops at the first match even when
+   it lacks the non-revocation proof the match calls for) fails the statement; repaired it holds *)
+Theorem C04_unfixed_search_refuted :
+  honest_w3c cfg_no_search pcfg_fixed s_case = true /\ flow_w3c cfg_no_search pcfg_fixed s_case = Some Err.
+Proof. exact c04_unfixed_search_refuted. Qed.
+Theorem C04_fixed_search_on_witness :
+  honest_w3c cfg_fixed pcfg_fixed s_case = true /\ flow_w3c cfg_fixed pcfg_fixed s_case = Some Accept.
+Proof. exact c04_fixed_search_on_witness. Qed.
+
 Print Assumptions C04_sub_proof_verifies_partial.
+Print Assumptions C04_unfixed_search_refuted.
 Print Assumptions C04_unfixed_refuted.
 Print Assumptions C04_fixed_on_witness.
